@@ -23,7 +23,7 @@ using Graph = galois::graphs::DistGraph<NodeData, uint32_t>;
 using Substrate = galois::graphs::GluonSubstrate<Graph>;
 static const char* pol_names[] = {"oec", "iec", "hovc", "cvc", "cvc-colflip", "ginger-o", "fennel-o", "sugar-o", "oec-symmetric", "cvc-csc"};
 constexpr int NPOL = 10;
-static int nhosts, policy, mode, nrounds, threads_per_host;
+static int nhosts, policy, mode, nrounds, threads_per_host, commmode, partition_agnostic;
 static gr::Model model, tmodel;     // input and its transpose (for CSC inputs)
 static std::string path, tpath;
 struct WritePlan { int loc; int reducer; int use_bitset; std::vector<std::array<uint32_t, 3>> writes; };   // (host, gid, value)
@@ -66,7 +66,9 @@ static void do_sync(Substrate& sub, int loc) {
 }
 
 static int hostmain(int me) {
-  galois::DistMemSys G;
+  // The runtime is deliberately not torn down: DistMemSys's destructor merges statistics across hosts with a protocol
+  // of its own (DistStats.cpp), which is outside C18/C19 and whose shutdown race is recorded separately (DESIGN section 4).
+  new galois::DistMemSys();
   galois::setActiveThreads(threads_per_host);
   auto& net = galois::runtime::getSystemNetworkInterface();
   std::unique_ptr<Graph> g = partition();
@@ -82,7 +84,8 @@ static int hostmain(int me) {
   for (unsigned h = 0; h < mir.size(); h++) for (size_t k = 0; k < mir[h].size(); k++) put(REC_MIRROR, me, h, (uint32_t)k, (uint32_t)mir[h][k]);
   if (mode == 0) { galois::runtime::getHostBarrier().wait(); return 0; }
   // ---------------- C18: sync rounds ----------------
-  Substrate sub(gr_, net.ID, net.Num, gr_.isTransposed(), gr_.cartesianGrid(), false, false);
+  static const DataCommMode modes[] = {noData, bitsetData, offsetsData, gidsData, onlyData};   // noData = choose by density
+  Substrate sub(gr_, net.ID, net.Num, gr_.isTransposed(), gr_.cartesianGrid(), partition_agnostic != 0, modes[commmode]);
   bitset_vmin.resize(gr_.size()); bitset_vadd.resize(gr_.size());
   // initial consistent state: every proxy holds f(gid); add-field mirrors hold the identity
   for (uint32_t l = 0; l < gr_.size(); l++) { uint64_t gid = gr_.getGID(l); gr_.getData(l).vmin = 1000000 + (uint32_t)gid * 7; gr_.getData(l).vadd = gr_.isOwned(gid) ? (uint32_t)gid : 0; }
@@ -116,16 +119,23 @@ int main() {
   threads_per_host = (int)vsim_param("threads", 1, cores[0] - 1);
   policy = (int)vsim_param("policy", 0, NPOL - 1);
   mode = (int)vsim_param_fixed("mode", 0);
+  commmode = (int)vsim_param("commmode", 0, 4); partition_agnostic = (int)vsim_param("partition_agnostic", 0, 3) == 0;
   vsim_note("component", "%s policy=%s hosts=%d", mode ? "gluon-sync" : "partition", pol_names[policy], nhosts);
   vsim_enable_fault(VF_MSG_DELAY, 0.05, 0.6);
   vsim_enable_fault(VF_IPROBE_MISS, 0.05, 0.5);
   vsim_enable_fault(VF_TEST_LAZY, 0.05, 0.5);
   vsim_enable_fault(VF_HOST_STALL, 0.0002, 0.004);
   vsim_enable_fault(VF_CLOCK_JUMP, 0.001, 0.05);
-  vsim_set_budget(60000000);
+  vsim_set_budget(6000000);
   // ---- input graph (unique edge data so every edge is identifiable) ----
   model = gr::generate(tier() ? 300 : 60, true);
   if (model.n == 0) { model.n = 1; model.end.assign(1, 0); }
+  if (policy >= 5 && policy <= 7 && model.edges.empty()) {
+    // streaming policies divide by the global edge count: a graph without edges turns every score into NaN, no host wins
+    // and getMaster() indexes nodeAccum[-1]; reported as a known finding, the run continues on a graph with one edge
+    vsim_known("streaming-policy-edgeless-graph", "Fennel/Ginger/Sugar on a graph without edges: balance score is NaN (numNodes/numEdges), bestHost stays -1, SIGSEGV in getMaster()");
+    if (!vsim_param_fixed("exercise_known", 0)) { if (model.n < 2) { model.n = 2; } model.edges.push_back({0, 1, 1}); model.end.assign(model.n, 1); }
+  }
   if (policy == 8) {   // symmetric input: make it symmetric (keeping unique data per directed edge)
     std::vector<gr::Edge> es = model.edges; for (auto& e : model.edges) if (e.src != e.dst) es.push_back({e.dst, e.src, 0});
     std::stable_sort(es.begin(), es.end(), [](auto& a, auto& b) { return a.src < b.src; });
@@ -148,7 +158,10 @@ int main() {
   // Eligibility needs the partition, which only exists inside the hosts: for the write locations Source/Destination the
   // harness restricts itself to writeAny plans unless the proxy's role can be decided from the policy-independent rule
   // "proxy is src/dst of a local edge", which the hosts evaluate themselves below (see filter in hostmain via REC_PRE values).
-  for (auto& wp : rounds) if (wp.loc < 6) wp.loc = 6 + wp.loc % 3;   // write location: Any (read location still varies)
+  for (auto& wp : rounds) if (wp.loc < 6) wp.loc = 6 + wp.loc % 3;   // write location: Any
+  // one read location per run: Gluon tracks changes per field through the update bitset, so a proxy that was not readable at
+  // an earlier sync of the field is not refreshed by a later one unless the value changes again (demanding it would exceed the statement)
+  for (auto& wp : rounds) wp.loc = rounds[0].loc;
   int bad = vsim_world(nhosts, hostmain);
   if (bad) vsim_fail("c19.host", "a host returned a non-zero status");
   // ================= parent-side oracle =================
@@ -174,8 +187,10 @@ int main() {
       claimed_owner[r.b] = (int)r.d;
       break;
     case REC_EDGE: {
-      bool tr = info[r.host][3];
-      uint32_t s = tr ? r.b : r.a, d = tr ? r.a : r.b;
+      // orientation of the local edges: only the CSC-output configuration holds transposed edges; the IEC configuration reads
+      // the transpose file and transposes back (its isTransposed() flag is set nevertheless)
+      bool flip = policy == 9;
+      uint32_t s = flip ? r.b : r.a, d = flip ? r.a : r.b;
       edge_count[{s, d, r.c}]++;
       has_out[r.host].insert(r.a); has_in[r.host].insert(r.b);
       if (!g2l[r.host].count(r.b)) {} // destination proxies are dumped as nodes too; checked below
@@ -214,9 +229,13 @@ int main() {
         else { expect = 0; for (int h = 0; h < nhosts; h++) { auto it = pre[r].find({h, gnode}); if (it != pre[r].end()) expect += it->second[1]; } }
         for (int h = 0; h < nhosts; h++) {
           auto it = post[r].find({h, gnode}); if (it == post[r].end()) continue;
-          bool tr = info[h][3];
-          bool readable = rl == 2 || (rl == 0 && (tr ? has_in[h].count(gnode) : has_out[h].count(gnode))) || (rl == 1 && (tr ? has_out[h].count(gnode) : has_in[h].count(gnode)));
+          // locations refer to the local graph as the operator iterates it: source = has a local out-edge, destination = is the
+          // target of a local edge (for every configuration, whatever isTransposed() says about how the edges got there)
+          bool readable = rl == 2 || (rl == 0 && has_out[h].count(gnode)) || (rl == 1 && has_in[h].count(gnode));
           if (h == mh) readable = true;   // the master always holds the reduced value
+          // add-fields: mirrors hold contributions and are reset by the reduction; whether a mirror is overwritten by the broadcast
+          // depends on whether the master changed in this round, so only the master's value is the decided outcome
+          if (wp.reducer == 1 && h != mh) continue;
           if (!readable) continue;
           uint32_t got = wp.reducer == 0 ? it->second[0] : it->second[1];
           // add: after the sync mirrors that are read hold the master's value; mirrors not broadcast to keep the identity
